@@ -881,6 +881,16 @@ static void vf_enum_inputs(void)
  * sees loops that pass through an action or a read); report it as a hang and stop. */
 #include <signal.h>
 #include <unistd.h>
+#include <sys/time.h>
+/* the watchdog counts the CPU time of this process, not wall-clock time: a scanner that loops burns CPU and is caught, a
+ * process that is merely not scheduled (a loaded machine) is not mistaken for one */
+static void vf_arm_watchdog(unsigned secs)
+{
+	struct itimerval it;
+	it.it_interval.tv_sec = 0; it.it_interval.tv_usec = 0;
+	it.it_value.tv_sec = (long)secs; it.it_value.tv_usec = 0;
+	setitimer(ITIMER_PROF, &it, (struct itimerval *)0);
+}
 static volatile long vf_wd_last = -1; static volatile int vf_wd_same;
 static int vf_wd_secs = 2;
 static void vf_watchdog(int sig)
@@ -908,7 +918,7 @@ static void vf_watchdog(int sig)
 		vf_wd_same = 0;
 		vf_wd_last = vf_executions;
 	}
-	alarm((unsigned)vf_wd_secs);
+	vf_arm_watchdog((unsigned)vf_wd_secs);
 }
 
 int main(int argc, char **argv)
@@ -924,8 +934,8 @@ int main(int argc, char **argv)
 		else if (!strcmp(argv[i], "-W") && i + 1 < argc) vf_wd_secs = atoi(argv[++i]);
 	}
 	if (!vf_out) return 5;
-	signal(SIGALRM, vf_watchdog);
-	alarm((unsigned)vf_wd_secs);
+	signal(SIGPROF, vf_watchdog);
+	vf_arm_watchdog((unsigned)vf_wd_secs);
 	vf_dfa_edge_base = (int *)calloc((size_t)ndfa + 1, sizeof(int));
 	for (i = 0; i < ndfa; i++) {
 		vf_dfa_edge_base[i] = (int)vf_edges_total;
